@@ -112,21 +112,22 @@ Definition add_new_ids (a : json) : prog (res json) :=
 (* ---- resolveActors / dereferenceForResolvingInboxes ---- *)
 Inductive resolved := RSkip | RActor (v : json) | RMore (ids : list string).
 
-Definition deref_for_resolving (u : string) : prog resolved :=
-  d <- dereference u ;;
+(* what a dereferenced document is for delivery: an actor, a collection (its member ids), or nothing usable *)
+Definition classify (d : deref_ans) : resolved :=
   match d with
   | DDoc j =>
       match to_type j with
       | Ok v =>
-          if vhas v "items" then
-            ret (match ids_of "items" v with Ok ids => RMore ids | _ => RSkip end)
-          else if vhas v "orderedItems" then
-            ret (match ids_of "orderedItems" v with Ok ids => RMore ids | _ => RSkip end)
-          else ret (RActor v)
-      | _ => ret RSkip
+          if vhas v "items" then (match ids_of "items" v with Ok ids => RMore ids | _ => RSkip end)
+          else if vhas v "orderedItems" then (match ids_of "orderedItems" v with Ok ids => RMore ids | _ => RSkip end)
+          else RActor v
+      | _ => RSkip
       end
-  | _ => ret RSkip
+  | _ => RSkip
   end.
+
+Definition deref_for_resolving (u : string) : prog resolved :=
+  d <- dereference u ;; ret (classify d).
 
 (* fuel = maxDepth - depth; the Go recursion stops when depth >= maxDepth *)
 Fixpoint resolve_actors (fuel : nat) (r : list string) : prog (list json) :=
@@ -137,6 +138,7 @@ Fixpoint resolve_actors (fuel : nat) (r : list string) : prog (list json) :=
          match r with
          | [] => ret []
          | u :: rest =>
+             if is_public u then loop rest else   (* Public has no inbox and is never fetched *)
              x <- deref_for_resolving u ;;
              here <- match x with
                      | RSkip => ret []
